@@ -8,7 +8,7 @@
 From Coq Require Import List NArith ZArith Bool.
 Import ListNotations.
 From V Require Import Base.Prelude Gen.ScanTok Model.Scan Model.ScanRel
-  Proofs.ScanBase Proofs.ScanTotal Proofs.ScanSpec Proofs.ScanCor.
+  Proofs.ScanBase Proofs.ScanTotal Proofs.ScanSpec Proofs.ScanCor Proofs.ScanFuel.
 Open Scope Z_scope.
 
 (* scan_total: for every byte string, both comment modes - and all three dialects - Scan never
@@ -54,6 +54,26 @@ Theorem C15_scan_tiles_source : forall ul ud src toks errs,
   (exists t, In t toks /\ tpos t <= i < tend t) \/ is_blank (nth (Z.to_nat i) src 0%N) = true.
 Proof. exact run_tiles. Qed.
 
+(* the model gives every sub-scanner loop S |rest| units of fuel and returns the state as it is when
+   the fuel is used up; that never happens: with any amount of fuel above |rest| each loop returns the
+   same result (so the loops stop where the Go loops stop), and more fuel never changes a result of
+   the token loop either *)
+Theorem C15_local_fuel_sufficient : forall ul ud,
+  (forall fuel b s, (sz s < fuel)%nat -> skip_ws fuel b s = skip_ws (S (sz s)) b s)
+  /\ (forall fuel s, (sz s < fuel)%nat -> scan_ident ul ud fuel s = scan_ident ul ud (S (sz s)) s)
+  /\ (forall fuel base s inv ds, (sz s < fuel)%nat -> digits fuel base s inv ds = digits (S (sz s)) base s inv ds)
+  /\ (forall fuel s n, (sz s < fuel)%nat -> until_nl fuel s n = until_nl (S (sz s)) s n)
+  /\ (forall fuel s n nl, (sz s < fuel)%nat -> block_body fuel s n nl = block_body (S (sz s)) s n nl)
+  /\ (forall fuel offs s, (sz s < fuel)%nat -> scan_string fuel offs s = scan_string (S (sz s)) offs s)
+  /\ (forall fuel offs s v n, (sz s < fuel)%nat -> scan_rune fuel offs s v n = scan_rune (S (sz s)) offs s v n)
+  /\ (forall fuel offs s, (sz s < fuel)%nat -> scan_raw fuel offs s = scan_raw (S (sz s)) offs s)
+  /\ (forall fuel s, (sz s < fuel)%nat -> fle_block fuel s = fle_block (S (sz s)) s)
+  /\ (forall fuel s, (sz s < fuel)%nat -> find_line_end fuel s = find_line_end (S (sz s)) s).
+Proof. exact local_fuel_sufficient. Qed.
+Theorem C15_more_fuel_same_result : forall ul ud d f f' cm st acc r,
+  (f <= f')%nat -> scan_all ul ud d f cm st acc = Ok r -> scan_all ul ud d f' cm st acc = Ok r.
+Proof. exact scan_all_ge. Qed.
+
 (* non-vacuity: a source with a BOM, a c"" string, a number with a unit, a rational, a raw string
    with \r, '#' '//' and block comments (one with \r), operators of every switchN shape, a keyword,
    an invalid byte and a NUL; the model returns 28 tokens and 4 errors (the invalid byte and the NUL are each reported by next() and by Scan) *)
@@ -88,3 +108,5 @@ Print Assumptions C15_scan_token_count.
 Print Assumptions C15_scan_offsets_monotone.
 Print Assumptions C15_scan_lit_is_slice.
 Print Assumptions C15_scan_tiles_source.
+Print Assumptions C15_local_fuel_sufficient.
+Print Assumptions C15_more_fuel_same_result.
